@@ -849,14 +849,59 @@ def r121(ctx, repo):
                label=f"dataset statistic {name}", nontrivial=False)
 
 
+class _Subst(ast.NodeTransformer):
+    def __init__(self, m):
+        self.m = m
+
+    def visit_Name(self, node):
+        if isinstance(node.ctx, ast.Load) and node.id in self.m:
+            import copy
+            return copy.deepcopy(self.m[node.id])
+        return node
+
+    def visit_Lambda(self, node):
+        return node
+
+
 def registered_statistics(repo):
+    """{name: Statistics(...) call}; registrations written as a loop over a
+    literal table of tuples are unrolled"""
+    import copy
     out = {}
+
+    def take(call):
+        nm = kwarg(call, "name", 0)
+        if const_str(nm):
+            out[const_str(nm)] = call
     for st in repo.tree(STAT).body:
         if isinstance(st, ast.Expr) and isinstance(st.value, ast.Call) \
                 and call_name(st.value) == "Statistics":
-            nm = kwarg(st.value, "name", 0)
-            if const_str(nm):
-                out[const_str(nm)] = st.value
+            take(st.value)
+        elif isinstance(st, ast.For) and isinstance(
+                st.iter, (ast.List, ast.Tuple)) and not st.orelse:
+            tg = st.target.elts if isinstance(
+                st.target, ast.Tuple) else [st.target]
+            if not all(isinstance(t, ast.Name) for t in tg):
+                continue
+            for item in st.iter.elts:
+                vals = item.elts if isinstance(
+                    item, (ast.Tuple, ast.List)) and isinstance(
+                    st.target, ast.Tuple) else [item]
+                if len(vals) != len(tg):
+                    raise AnalysisError("statistics.py: registration table "
+                                        "row does not fit the loop target")
+                m = {t.id: v for t, v in zip(tg, vals)}
+                for b in st.body:
+                    if isinstance(b, ast.Expr) and isinstance(
+                            b.value, ast.Call) and call_name(
+                            b.value) == "Statistics":
+                        c = _Subst(m).visit(copy.deepcopy(b.value))
+                        ast.fix_missing_locations(c)
+                        for n in ast.walk(c):
+                            for ch in ast.iter_child_nodes(n):
+                                ch.parent = n
+                        c.parent = st
+                        take(c)
     if len(out) < 4:
         raise AnalysisError("statistics.py: registry of Statistics(...) "
                             "calls not found")
@@ -973,13 +1018,20 @@ def r122(ctx, repo):
         if func.name in ("_apply_scale", "get_kde_spacing"):
             continue
         func = norm(func)
-        if not scaling_calls(func):
+        # axes can only be mixed where a function has parameters of both
+        # axes (x… / y… pairs); generic helpers that scale "an array with
+        # a scale" (the scaling primitives, their private wrappers) have
+        # none and are followed from their callers instead
+        if not Axes(func).ax:
             continue
         # private helpers extracted from the function (e.g. a helper that
-        # returns the filtered (x, y) pair) are followed: their body is
-        # inlined, tuples are unpacked position by position
+        # returns the filtered (x, y) pair, a wrapper of the spacing call)
+        # are followed: their body is inlined, tuples are unpacked
+        # position by position
         func = inline_helpers(repo, CORE, func,
                               keep=("_apply_scale", "get_kde_spacing"))
+        if not scaling_calls(func):
+            continue
         sc = scaling_calls(func)
         ax = Axes(func)
         cnt = {}
@@ -1039,7 +1091,9 @@ def r122(ctx, repo):
             is_est = isinstance(c.func, ast.Name) and any(
                 isinstance(n, ast.Assign) and isinstance(
                     n.targets[0], ast.Name) and n.targets[0].id == c.func.id
-                and "methods" in txt(n.value) for n in walk(func))
+                and isinstance(n.value, ast.Subscript) and (dotted(
+                    n.value.value) or "").endswith("methods")
+                for n in walk(func))
             if is_est:
                 pairs = [("events_x", kwarg(c, "events_x", 0), "x"),
                          ("events_y", kwarg(c, "events_y", 1), "y"),
@@ -1672,10 +1726,12 @@ def r127(ctx, repo):
         func0 = norm(func0)
         lins = [c for c in walk(func0) if isinstance(c, ast.Call)
                 and (call_name(c) or "").endswith("linspace")]
-        if not lins or not scaling_calls(func0):
+        if not lins:
             continue
         func = inline_helpers(repo, CORE, func0,
                               keep=("_apply_scale", "get_kde_spacing"))
+        if not scaling_calls(func):
+            continue
         lins = [c for c in walk(func) if isinstance(c, ast.Call)
                 and (call_name(c) or "").endswith("linspace")]
         est_names = {n.targets[0].id for n in walk(func)
